@@ -1,0 +1,11 @@
+// Copyright ©2024 The bíogo Authors. All rights reserved.
+// Use of this source code is governed by a BSD-style
+// license that can be found in the LICENSE file.
+
+//go:build !verif
+
+package bgzf
+
+func verifAt(string, int64)                 {}
+func verifAtC(string, *compressor, int64)   {}
+func verifAtD(string, *decompressor, int64) {}
